@@ -106,10 +106,17 @@ class DagWalker(Walker):
         if formula in self.memoization:
             return self.memoization[formula]
 
-        res = self.iter_walk(formula, **kwargs)
-
-        if self.invalidate_memoization:
-            self.memoization.clear()
+        pending = len(self.stack)
+        try:
+            res = self.iter_walk(formula, **kwargs)
+        finally:
+            # A walk that raises must not leave a trace in the walker:
+            # drop the entries it left on the work stack (a normal
+            # exit leaves none) and, for one-time-use caches, the
+            # results computed under the arguments of this call.
+            del self.stack[pending:]
+            if self.invalidate_memoization:
+                self.memoization.clear()
         return res
 
     def _get_key(self, formula: FNode, **kwargs) -> FNode:
